@@ -196,12 +196,18 @@ func genRounds(r *Rand, nRounds int, eedPct, envPct int, hooks bool) []rRound {
 		case 1, 2: // rows
 			items = append(items, rItem{K: "rowfmt"})
 			for j := r.Intn(4); j >= 0; j-- {
+				if r.Pct(12) {
+					deco() // messages and environment changes may arrive in the middle of a result set
+				}
 				items = append(items, rItem{K: "row", N: next()})
 			}
 		case 3, 4: // several result sets separated by DONE(MORE|COUNT)
 			for s := 0; s < 2+r.Intn(2); s++ {
 				items = append(items, rItem{K: "rowfmt"})
 				for j := r.Intn(3); j >= 0; j-- {
+					if r.Pct(12) {
+						deco()
+					}
 					items = append(items, rItem{K: "row", N: next()})
 				}
 				deco()
